@@ -9,6 +9,7 @@ package c11
 import (
 	"context"
 	"errors"
+	"expvar"
 	"fmt"
 	"math/rand"
 	"os"
@@ -399,6 +400,16 @@ func (r *runner) oneOp(g int, rng *rand.Rand, late bool, forceAfterCancel bool) 
 	case "stats":
 		r.call(g, "stats", 0, 0, func() error { _, err := idx.Stats().MarshalJSON(); return err })
 	case "statsmap":
+		if rng.Intn(2) == 0 {
+			// the process-wide walk over all registered indexes (what a /debug/vars scrape does)
+			r.call(g, "statsmap", 0, 0, func() error {
+				if v := expvar.Get("bleve"); v != nil {
+					_ = v.String()
+				}
+				return nil
+			})
+			break
+		}
 		r.call(g, "statsmap", 0, 0, func() error { _ = idx.StatsMap(); return nil })
 	case "close":
 		r.call(g, "close", 0, 0, idx.Close)
